@@ -209,6 +209,7 @@ def gen_case(seed, tier='quick'):
     def kind():
         return rng.choices(CONSTRUCTS, weights)[0]
 
+    pure_links = False
     link_heavy = rng.random() < 0.15       # mostly bare references
     if link_heavy and cls != 'deep_chain':
         weights = [90, 2, 2, 4, 2, 0]
@@ -235,6 +236,12 @@ def gen_case(seed, tier='quick'):
     else:   # cycle, longcycle, cycle_fail
         Lc = rng.randint(2, n) if cls != 'longcycle' else rng.randint(
             max(2, n // 2), n)
+        if cls == 'cycle' and rng.random() < 0.1 and n >= 3:
+            # nothing but pass-through cells (=B1): a loop of links entered
+            # through a tail of links
+            pure_links = True
+            weights = [100, 0, 0, 0, 0, 0]
+            Lc = rng.randint(2, n - 1)
         info['cycle_len'] = Lc
         # nodes 0..Lc-1 form the cycle i -> i+1 -> ... -> 0; nodes >= Lc are
         # tails leading into it or acyclic leaves
@@ -242,7 +249,7 @@ def gen_case(seed, tier='quick'):
             deps[i].append(((i + 1) % Lc, kind()))
         leaves = []
         for i in range(Lc, n):
-            r = rng.random()
+            r = rng.random() if not pure_links else 0.0
             if r < 0.5:      # tail: depends on a cycle node or earlier tail
                 deps[i].append((rng.randrange(i), kind()))
             else:            # leaf constant used by some cycle/tail node
@@ -265,7 +272,8 @@ def gen_case(seed, tier='quick'):
         rng.shuffle(terms)
         nodes.append({'a': addrs[i], 'k': rng.randint(0, 9), 'terms': terms,
                       'fail': None})
-        if link_heavy and rng.random() < 0.7 or rng.random() < 0.1:
+        if link_heavy and rng.random() < 0.7 or rng.random() < 0.1 \
+                or pure_links:
             nodes[-1]['link'] = True
 
     if cls == 'selfloop':
@@ -325,6 +333,8 @@ def gen_case(seed, tier='quick'):
         entry = rng.randrange(n)
     else:
         entry = rng.randrange(n)
+    if pure_links:
+        entry = rng.randrange(info['cycle_len'], n)
     info['entry_index'] = entry
 
     # unrelated formulas (model size matters to some detection schemes)
